@@ -319,3 +319,7 @@ import props_c11
 props_c11.register(_sys.modules[__name__])
 import props_c13
 props_c13.register(_sys.modules[__name__])
+import props_c15
+props_c15.register(_sys.modules[__name__])
+import props_c14
+props_c14.register(_sys.modules[__name__])
